@@ -12,7 +12,8 @@
 
    Abstract Python value  v:
        [t |-> "null"] | [t |-> "bool", tf] | [t |-> "int", n (decimal string)] | [t |-> "num", s (repr of a
-       finite float)] | [t |-> "str", s] | [t |-> "bytes", b (content id)] | [t |-> "bytesio", b] |
+       finite float)] | [t |-> "str", s] | [t |-> "bytes", b (content id)] |
+       [t |-> "bytesio", b, pos ("start" | "mid" | "end": where the stream position stands)] |
        [t |-> "list"|"tuple"|"set", xs] | [t |-> "dict", kv (sequence of <<key, v>>, keys distinct)] |
        [t |-> "dc", c (class __name__), f (sequence of <<field, v>> in dataclasses.fields order)] |
        [t |-> "py", k] (a Python object the JSON encoder rejects: timedelta, Decimal, ...) |
@@ -35,19 +36,25 @@
                           position it cannot be told from the encoder's own wrapper objects.
                           (open finding KF-C05-01: repairing it changes the documented wire format)
      "PassThroughNonJson" the cell normalisation passes datetime.timedelta through.
-                          (proposed fix c05-xlsx-timedelta)
+                          (proposed fix c05-xlsx-timedelta, committed)
+     "EncodeFromPosition" _bytesio_to_base64 encodes what lies after the current stream position instead
+                          of rewinding first (not a step of today's code: kept as the sensitivity
+                          witness that the BytesIO position is part of the quantified universe -- a
+                          caller may have read the payload before calling to_json).
 
    DON'T-CARE (documentation silent, never demanded):
      * Python objects other than JSON scalars, bytes, BytesIO, list, dict, registered dataclasses inside
        Any-typed positions of hand-built instances (only extractor outputs must be JSON-serialisable);
      * containers nested inside an Any-typed position that hold bytes/BytesIO/dataclasses;
      * nan/inf floats (Python's encoder writes NaN/Infinity, RFC 8259 has no such token);
-     * identity of bytes vs bytearray, tuple/set vs list, BytesIO position (content only), dict order;
+     * identity of bytes vs bytearray, tuple/set vs list, dict order; the position of a RESTORED BytesIO
+       (content only) -- the position of the ORIGINAL stream is part of the universe: to_json must encode
+       the whole content wherever the caller left the stream;
      * the ImageMetadata unit_index/image_index shim (fires only on input not produced by to_json).   *)
 EXTENDS Naturals, Sequences, FiniteSets, TLC
 
 CONSTANT Deviations
-DeviationNames == {"MarkerBeforeHint", "NoMarkerEscape", "PassThroughNonJson"}
+DeviationNames == {"MarkerBeforeHint", "NoMarkerEscape", "PassThroughNonJson", "EncodeFromPosition"}
 Dev(d) == d \in Deviations
 
 Markers == {"_type", "_bytes", "_bytesio"}
@@ -63,12 +70,16 @@ Keys(kv) == { kv[i][1] : i \in DOMAIN kv }
 Get(kv, k) == kv[CHOOSE i \in DOMAIN kv : kv[i][1] = k][2]
 
 B64Enc(E, b) == IF b \in DOMAIN E.enc THEN E.enc[b] ELSE "?"
+\* the bytes a read() from the current position delivers (content ids are opaque: only the two ends are known)
+Rest(b, pos) == IF pos = "start" THEN b ELSE IF pos = "end" THEN "" ELSE "rest-of:" \o b
+\* _bytesio_to_base64: tell, seek(0), read everything, seek back -- the whole content whatever the position
+StreamContent(v) == IF Dev("EncodeFromPosition") THEN Rest(v.b, v.pos) ELSE v.b
 B64Dec(E, s) == IF s \in DOMAIN E.dec THEN E.dec[s] ELSE "ERR"
 
 (* ------------------------------------------------------------------ encoder *)
 RECURSIVE Ser(_, _, _)
 Ser(E, v, ib) ==
-    CASE v.t = "bytesio" -> IF ib THEN Obj(<< <<"_bytesio", Str(B64Enc(E, v.b))>> >>) ELSE Null
+    CASE v.t = "bytesio" -> IF ib THEN Obj(<< <<"_bytesio", Str(B64Enc(E, StreamContent(v)))>> >>) ELSE Null
       [] v.t = "bytes"   -> IF ib THEN Obj(<< <<"_bytes", Str(B64Enc(E, v.b))>> >>) ELSE Null
       [] v.t = "dc"      -> Obj(<< <<"_type", Str(v.c)>> >> \o
                                 [i \in 1..Len(v.f) |-> <<v.f[i][1], Ser(E, v.f[i][2], ib)>>])
@@ -107,7 +118,9 @@ Raw(j) ==
 
 DecBytes(E, tag, j) ==          \* base64.b64decode(x.encode()): x must be a str holding valid base64
     IF j.t # "str" THEN Err
-    ELSE LET b == B64Dec(E, j.s) IN IF b = "ERR" THEN Err ELSE [t |-> tag, b |-> b]
+    ELSE LET b == B64Dec(E, j.s) IN
+         IF b = "ERR" THEN Err
+         ELSE IF tag = "bytesio" THEN [t |-> tag, b |-> b, pos |-> "start"] ELSE [t |-> tag, b |-> b]
 
 Unwrap(h) == IF h.k = "opt" THEN h.of ELSE h
 AnyHint == [k |-> "any"]
@@ -159,12 +172,13 @@ FromJson(E, j) ==
     IF j.t \notin {"obj", "eobj"} \/ "_type" \notin Keys(j.kv) THEN Err          \* deserialize_extraction
     ELSE LET r == DeserDC(E, j, "") IN IF HasErr(r) THEN Err ELSE r
 
-\* tuples and sets come back as lists (content equality only)
+\* tuples and sets come back as lists, a stream comes back rewound (content equality only)
 RECURSIVE Canon(_)
 Canon(v) ==
     CASE v.t \in {"list", "tuple", "set"} -> [t |-> "list", xs |-> [i \in 1..Len(v.xs) |-> Canon(v.xs[i])]]
       [] v.t = "dc"   -> [v EXCEPT !.f = [i \in 1..Len(v.f) |-> <<v.f[i][1], Canon(v.f[i][2])>>]]
       [] v.t = "dict" -> [v EXCEPT !.kv = [i \in 1..Len(v.kv) |-> <<v.kv[i][1], Canon(v.kv[i][2])>>]]
+      [] v.t = "bytesio" -> [v EXCEPT !.pos = "start"]
       [] OTHER -> v
 
 (* ------------------------------------------------------------------ the property *)
